@@ -99,6 +99,16 @@ Theorem C09_order_irrelevant : forall c, c_patched c = true -> forall b, 2 <= qs
 Proof. exact order_irrelevant. Qed.
 Print Assumptions C09_order_irrelevant.
 
+(* the collector's ViewStates also holds the highest timeout certificate; a move of the high TC (any view: the
+   block's, later, earlier; at any position) is a stimulus that changes nothing — only the high QC bounds which
+   votes still count.  The theorems above quantify over sequences containing such stimuli ([ev_ok] puts no
+   condition on them); removing them all leaves the final state and every other stimulus' certificates. *)
+Theorem C09_high_tc_irrelevant : forall c es st,
+  run c st (no_tc es) = (fst (run c st es), drop_tc_outs es (snd (run c st es))) /\
+  Forall2 (fun e o => is_tc e = true -> o = []) es (snd (run c st es)).
+Proof. exact high_tc_irrelevant. Qed.
+Print Assumptions C09_high_tc_irrelevant.
+
 (* ---- Kauri tree node ---- *)
 
 (* along every run (contributions of any kind in any order, timers, new rounds) the aggregate held,
